@@ -232,7 +232,7 @@ run_mod_op(int op, const vset_t *mods, const vset_t *abase, const vset_t *bset, 
 		for (ic = 0; ic < 3; ic ++) {
 			size_t ca = caps[ic], cm = (im & 1) ? ca : ndm;
 			if (exhaustive8 && 2 == ic) continue;	/* exhaustive operand sets: tight and double capacity */
-			if (!vh_begin(mod_name[op])) continue;
+			if (!begin_case(mod_name[op])) continue;
 			d_op = mod_name[op]; d_a = m; d_cap = ca; d_set = "operands for this modulus (a= is the modulus)";
 			vh_publish_desc();
 			na = operands_for(&m, abase, exhaustive8, as, MAXOPS);
